@@ -36,6 +36,8 @@ class ProgGen(object):
         self.outcomes = {}       # final step text -> outcome
         self.flavour = {}        # final step text -> "sync" | "async"
         self.text_pool = [] if self.o.get("p_repeat_text", 0.0) > 0 else None
+        # the Examples column that feeds the step texts: a heading is free text ("x", but also "service status", "step-outcome")
+        self.xcol = rng.choice(self.o.get("value_columns") or ["x"])
 
     # -- helpers --------------------------------------------------------------
     def tags(self, extra=()):
@@ -172,9 +174,9 @@ class ProgGen(object):
                 tagv = r.choice(o.get("tag_values") or o["tags"])
                 rows.append([v, tagv])
                 values.append(v)
-            header = ["x", tcol]
+            header = [self.xcol, tcol]
             if r.random() < 0.3:          # different column order in this block
-                header = [tcol, "x"]
+                header = [tcol, self.xcol]
                 rows = [[b, a] for a, b in rows]
             examples.append({"tags": self.tags(), "name": "E%d" % (ei + 1) if r.random() < 0.8 else "",
                              "header": header, "rows": rows})
@@ -184,14 +186,14 @@ class ProgGen(object):
             e = r.choice(examples)
             v = "%sv%d" % (name.lower(), self.ids.next())
             tagv = r.choice(o.get("tag_values") or o["tags"])
-            e["rows"].append([v, tagv] if e["header"] == ["x", tcol] else [tagv, v])
+            e["rows"].append([v, tagv] if e["header"] == [self.xcol, tcol] else [tagv, v])
             values.append(v)
         if values and r.random() < o.get("p_empty_cell", 0.1):
             # one row whose cell is EMPTY (an optional word): the placeholder is replaced by nothing
             k = r.randrange(len(values))
             victim = values[k]
             for e in examples:
-                xi = e["header"].index("x")
+                xi = e["header"].index(self.xcol)
                 for row in e["rows"]:
                     if row[xi] == victim:
                         row[xi] = ""
@@ -207,18 +209,18 @@ class ProgGen(object):
             extra.append(r.choice(["u.<nosuch>", "<nosuch>.<%s>" % tcol, "req.<req>"]))
         n = r.randint(1, o["max_steps"])
         # steps: placeholders <x> make per-row final texts
-        steps = self.steps(n, "x", values or ["none"])
+        steps = self.steps(n, self.xcol, values or ["none"])
         if r.random() < o.get("p_reserved_step", 0.0):
             # a documented special placeholder in the TEXT of one outline step ("... row <row.index>"): rendered per row like a column
-            cands = [st for st in steps if "<x>" in st["text"]]
+            cands = [st for st in steps if ("<%s>" % self.xcol) in st["text"]]
             if cands:
                 st = r.choice(cands)
                 old, ph = st["text"], r.choice(["row.index", "row.id", "examples.index"])
                 for ei, e in enumerate(examples):
-                    xi = e["header"].index("x")
+                    xi = e["header"].index(self.xcol)
                     for ri, row in enumerate(e["rows"]):
                         val = {"row.index": str(ri + 1), "row.id": "%d.%d" % (ei + 1, ri + 1), "examples.index": str(ei + 1)}[ph]
-                        of = old.replace("<x>", row[xi])
+                        of = old.replace("<%s>" % self.xcol, row[xi])
                         nf = "%s no <%s>" % (of, ph)
                         nf = nf.replace("<%s>" % ph, val)
                         if of in self.outcomes:
@@ -247,7 +249,7 @@ class ProgGen(object):
             if cands:
                 st = r.choice(cands)
                 self.outcomes.pop(st["text"], None)
-                st["text"] = st["text"] + " <x>"
+                st["text"] = st["text"] + " <%s>" % self.xcol
         if steps:
             steps[0]["first_of_background"] = True
             if r.random() < o.get("p_bg_star", 0.2):
